@@ -138,18 +138,22 @@ def parseFloat (s : Bytes) : PF :=
           if v ≥ overflowBound then .bad
           else .value (if neg then -v else v)
 
-/-- `%.<prec>f` of an exact value: round half to even at `prec` decimals. -/
-def fmtFixed (prec : Nat) (q : Q) : Bytes :=
-  let neg := q.num < 0
-  let n := q.num.natAbs * 10 ^ prec
-  let d := q.den
+/-- round `n / d` to the nearest integer, ties to even -/
+def roundHalfEven (n d : Nat) : Nat :=
   let fl := n / d
   let r := n % d
-  let up := 2 * r > d || (2 * r == d && fl % 2 == 1)
-  let k := if up then fl + 1 else fl
-  let ip := k / 10 ^ prec
-  let fp := k % 10 ^ prec
-  (if neg then [45] else []) ++ natDigits ip ++ (if prec == 0 then [] else 46 :: natPad prec fp)
+  if 2 * r > d || (2 * r == d && fl % 2 == 1) then fl + 1 else fl
+
+/-- `|q| · 10^prec` rounded half to even: the digits `%.<prec>f` prints -/
+def roundedAt (prec : Nat) (q : Q) : Nat := roundHalfEven (q.num.natAbs * 10 ^ prec) q.den
+
+/-- the digits of a fixed-point number `k / 10^prec` -/
+def fixedDigits (prec k : Nat) : Bytes :=
+  natDigits (k / 10 ^ prec) ++ (if prec == 0 then [] else 46 :: natPad prec (k % 10 ^ prec))
+
+/-- `%.<prec>f` of an exact value: round half to even at `prec` decimals. -/
+def fmtFixed (prec : Nat) (q : Q) : Bytes :=
+  (if q.num < 0 then [45] else []) ++ fixedDigits prec (roundedAt prec q)
 
 /-- `%<w>.<prec>f` -/
 def fmtFixedW (w prec : Nat) (q : Q) : Bytes := padLeft 32 w (fmtFixed prec q)
